@@ -104,6 +104,9 @@ def extract_abbreviation(line: str, pos: int=None, options={}) -> ExtractedAbbre
             # respect all characters inside attribute sets or text nodes
             scanner.pos -= 1
             continue
+        elif ch == ',' and opt.get('type') == 'stylesheet' and Brackets.RoundR in stack:
+            # argument delimiter inside function call of stylesheet abbreviation: `lg(a,b)`
+            pass
         elif is_at_html_tag(scanner) or not is_abbreviation(ch):
             break
 
